@@ -42,7 +42,7 @@ func checkC06(c *Ctx) {
 	c.Rule("R6.5", "default actions: panic(message) / exit.With(1) -> os.Exit / Goexit; exit function only written by the stub helpers, which non-test code never calls", 5)
 	c.Rule("R6.7", "Config wires development mode (DPanic panics) exactly under Config.Development", 1)
 	if g, pos, ok := ConfigOptionGuards(c, "Development"); ok {
-		rn := c.Method(ZapPath, "Config", "buildOptions").Params[0].Name()
+		rn := PN(c.Method(ZapPath, "Config", "buildOptions").Params[0])
 		c.Check(len(g) == 1 && g[0] == rn+".Development", "R6.7", "(go.uber.org/zap.Config).buildOptions", "development-option", pos, "the Development() option is installed under exactly {%s.Development} (found {%s}); any further condition makes DPanic return normally for some development configurations", rn, strings.Join(g, ", "))
 	} else {
 		c.Bad("R6.7", "(go.uber.org/zap.Config).buildOptions", "development-option", pos, "Config.buildOptions never installs the Development() option")
@@ -618,7 +618,7 @@ func c6FrontEnds(c *Ctx, lv map[string]int64) {
 			}
 			stt, _ := pr.Underlying().(*types.Struct)
 			for i := 0; stt != nil && i < stt.NumFields(); i++ {
-				f := stt.Field(i).Name()
+				f := FN(stt.Field(i))
 				k, isInt, val := st.FieldOf(pv, f)
 				switch {
 				case isInt:
@@ -730,7 +730,7 @@ func c6Write(c *Ctx) {
 	Bound(func() {
 		a := Args(coreWrite)
 		d1, d2 = Desc(a[1]), Desc(a[2])
-		over = strings.Replace(over, coreWrite.Parent().Params[0].Name()+".", rc+".", 1)
+		over = strings.Replace(over, PN(coreWrite.Parent().Params[0])+".", rc+".", 1)
 	})
 	c.Check(ok && over == rc+".cores", "R6.3", name, "all-cores", coreWrite.Pos(), "every accepting core is written (range over %s, no early exit) %s", over, why)
 	// a tee registered as ONE core (under a wrapper that registers itself) must hand the final entry to all its branches too
